@@ -83,9 +83,15 @@ func liveBuilderHistory(c *Ctx, r *Rng, s sqCase, site string) {
 	for _, t := range s.txs[:half] {
 		appendOne(t)
 	}
-	if r.Bool(50) {
+	exportAndCompare := func() {
 		ops = append(ops, "x")
-		_, _ = b.Export()
+		got, err := b.Export()
+		list := append(append([][]byte{}, normals...), blobtxs...)
+		want, err2 := square.Construct(list, s.max, s.thr)
+		c.check(err == nil && err2 == nil && sameSquare(got, want), site, "an intermediate export of the live builder differs from Construct over the transactions accepted so far", wit)
+	}
+	if r.Bool(50) {
+		exportAndCompare()
 	} else {
 		query()
 	}
@@ -96,6 +102,8 @@ func liveBuilderHistory(c *Ctx, r *Rng, s sqCase, site string) {
 		appendOne(t)
 		if r.Bool(30) {
 			query()
+		} else if r.Bool(25) {
+			exportAndCompare()
 		}
 	}
 	query()
